@@ -365,6 +365,68 @@ def read_pcd_shape(rf):
     return True
 
 
+def aggr_deletes(text, sig, what):
+    """`delete item;` statements of one aggregate ReadValue: position (inside the element loop / after it before the
+    close-paren test / in the missing-close branch / after the test) and guard"""
+    b = _strip(_body(text, sig, what))
+    w = re.search(r"\bwhile\s*\(\s*in\.good\(\)\s*&&\s*\(\s*c\s*!=\s*'\)'\s*\)\s*\)\s*\{", b)
+    if not w:
+        raise ValueError(f"{what}: element loop `while( in.good() && ( c != ')' ) )` not found")
+    loop_end = _match(b, w.end(), "{", "}")
+    t = re.search(r"\bif\s*\(\s*c\s*==\s*'\)'\s*\)\s*\{", b[loop_end:])
+    if not t:
+        raise ValueError(f"{what}: close-paren test after the loop not found")
+    t_start = loop_end + t.start()
+    then_end = _match(b, loop_end + t.end(), "{", "}")
+    e = re.match(r"\s*else\s*\{", b[then_end:])
+    if not e:
+        raise ValueError(f"{what}: `else` branch (missing close paren) not found")
+    else_end = _match(b, then_end + e.end(), "{", "}")
+    # a flag that stands for "the scratch node was allocated" (set only in the `else if( !assignVal )` block)
+    flags = set()
+    for m in re.finditer(r"else\s+if\s*\(\s*!\s*assignVal\s*\)\s*\{", b[:w.start()]):
+        blk_end = _match(b, m.end(), "{", "}")
+        for f in re.finditer(r"\b(\w+)\s*=\s*true\s*;", b[m.end():blk_end]):
+            flags.add(f.group(1))
+    for f in flags:
+        if len(re.findall(r"\b" + f + r"\s*=\s*true\b", b)) != 1:
+            flags = flags - {f}
+    sites = {}
+    for m in re.finditer(r"\bdelete\s+item\s*;", b):
+        pos = m.start()
+        if w.end() <= pos < loop_end:
+            site = "giveUp"
+        elif loop_end <= pos < t_start:
+            site = "afterLoop"
+        elif then_end <= pos < else_end:
+            site = "missingClose"
+        elif pos >= else_end:
+            site = "atEnd"
+        elif pos < w.start():
+            raise ValueError(f"{what}: `delete item` before the element loop is not modelled")
+        else:
+            raise ValueError(f"{what}: `delete item` in the close-paren branch is not modelled")
+        pre = b[:pos].rstrip()
+        g = re.search(r"if\s*\(([^(){};]*)\)\s*\{?\s*$", pre)
+        if not g:
+            guard = ".always"
+        else:
+            c = _ws(g.group(1))
+            if c == "!assignVal" or c in flags:
+                guard = ".ifNotAssign"
+            elif c == "assignVal":
+                guard = ".ifAssign"
+            else:
+                raise ValueError(f"{what}: guard `{g.group(1)}` of `delete item` not recognised")
+        if site in sites:
+            raise ValueError(f"{what}: two `delete item` at {site}")
+        sites[site] = guard
+    if not re.search(r"if\s*\(\s*assignVal\s*\)\s*\{[^}]*AddNode\s*\(\s*item\s*\)", b[w.end():loop_end]):
+        raise ValueError(f"{what}: `if( assignVal ) AddNode( item )` inside the loop not found")
+    f = lambda k: ("(some " + sites[k] + ")") if k in sites else "none"
+    return "{ giveUp := %s, afterLoop := %s, missingClose := %s, atEnd := %s }" % (f("giveUp"), f("afterLoop"), f("missingClose"), f("atEnd"))
+
+
 def skip_comments(rf):
     """does SkipInstance have the `case '/':` that steps over a comment (peek '*', putback, ReadComment; else keep the '/')?"""
     b = _ws(_strip(_body(rf, r"Severity\s+SkipInstance\s*\(", "SkipInstance")))
@@ -600,6 +662,10 @@ def extract(repo):
     sch_cap = schformat(rd("src/clstepcore/Registry.cc"), env)
     nms_exact = nms_copy_exact(sc)
     skipcm = skip_comments(rf)
+    ad = [aggr_deletes(rd(f), sig, w) for f, sig, w in [
+        ("src/clstepcore/STEPaggregate.cc", r"Severity\s+STEPaggregate::ReadValue\s*\(", "STEPaggregate::ReadValue"),
+        ("src/clstepcore/STEPaggrEntity.cc", r"Severity\s+EntityAggregate::ReadValue\s*\(", "EntityAggregate::ReadValue"),
+        ("src/clstepcore/STEPaggrSelect.cc", r"Severity\s+SelectAggregate::ReadValue\s*\(", "SelectAggregate::ReadValue")]]
     read_pcd_shape(rf)
     ews = ends_with_shape(strcc)
     mcl, rc_iters = read_comment(rf, rh, env)
@@ -617,6 +683,7 @@ def extract(repo):
 -- src/clutils/Str.cc, include/clstepcore/complexSupport.h, src/cleditor/STEPfile.cc, src/cleditor/STEPfile.inline.cc,
 -- src/clstepcore/STEPcomplex.cc and the sprintf calls of the C05-anchored files.  Do not edit.
 import StepModel.P21SafeBase
+import StepModel.P21SafeOwn
 namespace StepModel.Generated.C05
 open StepModel.P21Safe
 
@@ -663,6 +730,11 @@ def nmsCopyExactAlloc : Bool := {b(nms_exact)}
 
 /-- `StrEndsWith` (called by `GetLiteralStr` for every apostrophe): how much of the string it inspects -/
 def strEndsWithShape : EndsWithShape := {ews}
+
+/-- the `delete item;` statements of the three aggregate `ReadValue` functions (position, guard) -/
+def aggrDeletes : DelCfg := {ad[0]}
+def entityAggrDeletes : DelCfg := {ad[1]}
+def selectAggrDeletes : DelCfg := {ad[2]}
 
 /-- `SkipInstance` has the `case '/':` that steps over a comment -/
 def skipInstanceSkipsComments : Bool := {b(skipcm)}
